@@ -9,3 +9,8 @@ claim("C17", "exploration",
  "Runs batches of 1, 8, 64, 256 (thorough: ..1024) calls of SinglePipelineSimulate and Fitness_default, sequentially and from 8 concurrent callers, on chains of 1..6 processors; after each batch reads NumGoroutine, the goroutine profile grouped by creation site and HeapObjects. Violation iff the growth for the largest batch exceeds that of the single-call batch by more than 4 goroutines, or the heap grows by more than 64 objects per call; the witness names the leaking creation sites.",
  "Fitness_default can only be driven with an empty input simbox (it passes a nil Config that SimConfig.Init dereferences as soon as a rule exists). Thresholds are constants independent of n; settle = 5 GC/yield rounds.",
  "§3 C17")
+claim("C09", "exploration",
+ "runtime monitor: per-tick whole-state digest compared across seeded schedule perturbation (verif yield hook), GOMAXPROCS and concurrent simulations; Go race detector over the same workload",
+ "Simulates chains, fan-outs, chains whose stages all run addp/multp/divp and random dataflow DAGs alone (reference digest of the complete VM state after every tick), then under 10 (quick) / 40 (thorough) seeded yield/sleep patterns injected at the four worker/tick hand-over hook sites with GOMAXPROCS in {1,2,3,8,16}, then as 2/4/16 concurrent simulations sharing machine objects, then SinglePipelineSimulate from 8 concurrent callers incl. a not-yet-created dynamic data type. The workload is repeated in a -race build (halt_on_error=0, log parsed, reports de-duplicated by the pair of top frames). Evidence reports the distinct worker orders actually observed.",
+ "Determinism claimed for SimDelayMap == nil only. Opcode objects' private state is observed through its effect on VM state. Interleavings not produced by the perturbation are not covered.",
+ "§3 C09")
